@@ -96,6 +96,13 @@ def load_known_findings():
         return json.load(f)
 
 
+def matched_skip(kf, prop, ob):
+    for fd in kf.get("findings", []):
+        if finding_matches(fd, prop, ob):
+            return fd
+    return None
+
+
 def site_of(ob):
     """Witness class of a failing obligation: clause id + unit (function[version]) — no line numbers, no solver numbers."""
     return f"{ob['name']}|{ob['unit']}"
@@ -219,13 +226,16 @@ def check_property(mod, world, tier="quick", seed=0):
     kf = load_known_findings()
     uncovered = [o for o in obligs if o["tag"] == "cover"]
     obligs = [o for o in obligs if o["tag"] != "cover"]
+    failing_units = {o["unit"] for o in obligs if o["status"] == "sat" and o["tag"] in ("property", "helper")}
     for o in uncovered:
+        if o["unit"] in failing_units:
+            continue  # the unit already fails an obligation (e.g. an unexpected exception replaces the described outcome)
         rep.say(f"ENGINE-ERROR property={prop}: outcome {o['name']} of the contract of {o['unit']} is reached by no path (vacuous clause)")
         rep.bump(EXIT_ENGINE)
     real = [o for o in obligs if o["tag"] != "canary"]
     canaries = [o for o in obligs if o["tag"] == "canary"]
     # canaries: each deliberately false clause must be refuted on at least one path
-    can_ids = sorted({o["name"] for o in canaries})
+    can_ids = sorted({o["name"] for o in canaries if prop in o["name"].split("/")[0].split("+")})
     can_ok = {c: any(o["status"] == "sat" for o in canaries if o["name"] == c) for c in can_ids}
     for c, ok in can_ok.items():
         if not ok:
@@ -247,6 +257,9 @@ def check_property(mod, world, tier="quick", seed=0):
         units2 = mod.rebuild_inlined(world, failing_helper)
         res2 = run_units(world, units2)
         ob2 = [o for _, obs, _, _ in res2 for o in obs]
+        for o in ob2:
+            if o["tag"] in ("property", "helper"):
+                o["tag"] = "property" if prop in o["name"].split("/")[0].split("+") else "helper"
         bad2 = [o for o in ob2 if o["tag"] == "property" and o["status"] != "unsat"]
         if any(err for _, _, _, err in res2):
             bad2.append({"name": "inline-fallback-crashed", "unit": "", "status": "unknown", "tag": "property", "path": [], "model": None})
@@ -268,17 +281,20 @@ def check_property(mod, world, tier="quick", seed=0):
     known_lines, reported = [], set()
     replays = []
     for ob in failing_prop:
-        key = (ob["name"].split("@")[0], ob["unit"])
+        key = (ob["name"].split("@")[0],)
         matched = [fd for fd in kf.get("findings", []) if finding_matches(fd, prop, ob)]
         rp = None
         try:
             rp = mod.replay(world, ob) if hasattr(mod, "replay") else None
         except Exception:  # noqa: BLE001
             rp = {"confirmed": False, "error": traceback.format_exc()}
+        if matched_skip(kf, prop, ob) is None and key in reported:
+            continue
         fname = f"{prop}-{hashlib.sha1(('|'.join(key)).encode()).hexdigest()[:10]}.json"
         path = os.path.join("evidence", "replays", fname)
+        units_failing = sorted({o["unit"] for o in failing_prop if o["name"] == ob["name"]})
         with open(os.path.join(VERIF, path), "w") as f:
-            json.dump({"property": prop, "obligation": ob["name"], "unit": ob["unit"], "path": ob["path"],
+            json.dump({"property": prop, "obligation": ob["name"], "unit": ob["unit"], "all_failing_units": units_failing, "path": ob["path"],
                        "solver": {"backend": ob["backend"], "answer": ob["status"], "seconds": ob["secs"]},
                        "counter_model": ob["model"], "native_replay": rp}, f, indent=1, default=str)
         replays.append(path)
@@ -292,7 +308,8 @@ def check_property(mod, world, tier="quick", seed=0):
         reported.add(key)
         confirmed = bool(rp and rp.get("confirmed"))
         rep.violations += 1
-        rep.say(f"VIOLATION property={prop} replay={path} obligation={ob['name']} unit={ob['unit']}" + ("" if confirmed else " no-failing-input-found"))
+        more = f" (+{len(units_failing) - 1} more units)" if len(units_failing) > 1 else ""
+        rep.say(f"VIOLATION property={prop} replay={path} obligation={ob['name']} unit={ob['unit']}{more}" + ("" if confirmed else " no-failing-input-found"))
         rep.bump(EXIT_VIOLATION)
     for line in known_lines:
         rep.say(line)
@@ -305,6 +322,11 @@ def check_property(mod, world, tier="quick", seed=0):
     if hasattr(mod, "bounded"):
         try:
             bounded = mod.bounded(world, tier, seed, rep)
+            nf_ = bounded.get("native_failure") if isinstance(bounded, dict) else None
+            if nf_ and rep.exit == EXIT_OK and not known_lines:
+                # the bounded stand-in disagrees with a clean deductive verdict: the engine or a contract is wrong
+                rep.say(f"ENGINE-ERROR property={prop}: bounded stand-in found a native failure the prover did not report: {str(nf_)[:300]}")
+                rep.bump(EXIT_ENGINE)
         except Exception:  # noqa: BLE001
             rep.say(f"ENGINE-ERROR property={prop}: bounded stand-in crashed: {traceback.format_exc().strip().splitlines()[-1]}")
             sys.stderr.write(traceback.format_exc())
